@@ -521,7 +521,7 @@ class HeapMixin:
             if reg == region or reg == "*" or (reg == "field:*" and region.startswith("field:")):
                 if a is None:
                     return
-                allowed.append(addr == a)
+                allowed.append(a(addr, st) if callable(a) else addr == a)
         goal = z3.Or(allowed) if len(allowed) > 1 else allowed[0]
         goal_s = z3.simplify(goal)
         if not z3.is_true(goal_s):
@@ -531,10 +531,21 @@ class HeapMixin:
             al = [addr >= ltop]
             for reg, a in lallowed:
                 if reg == region or reg == "*" or (reg == "field:*" and region.startswith("field:")):
-                    al.append(addr == a if a is not None else z3.BoolVal(True))
+                    al.append(z3.BoolVal(True) if a is None else (a(addr, st) if callable(a) else addr == a))
             g = z3.simplify(z3.Or(al) if len(al) > 1 else al[0])
             if not z3.is_true(g):
                 self.oblige(st, "frame", f"loop{lid}:{region}", g, node)
+
+    def check_frame_class(self, st: State, region: str, pred, node=None):
+        """A callee may write all objects of a class: the caller must hold a class region covering it."""
+        def covered(entries):
+            return any(reg == region and (a is None or (callable(a) and self.reg.is_subclass(pred.class_name, a.class_name))) for reg, a in entries)
+
+        if not covered(self.allowed_writes):
+            self.oblige(st, "frame", f"class:{pred.class_name}", z3.BoolVal(False), node)
+        for (ltop, lallowed, lid) in st.loop_frames:
+            if not covered(lallowed):
+                self.oblige(st, "frame", f"loop{lid}:class:{pred.class_name}", z3.BoolVal(False), node)
 
     def check_frame_wildcard(self, st: State, region: str, node=None):
         """A callee may write `region` of arbitrary objects: the caller must hold the same wildcard."""
@@ -562,6 +573,15 @@ class HeapMixin:
         """Forget everything about `region` at `addr` (used for loop cuts and callee modifies)."""
         if addr is None:
             return self.havoc_all(st, region)
+        if callable(addr):
+            a = z3.Int("hc_a")
+            cond = addr(a, st)
+            for name in list(set(st.heap) | set(self.H.base)):
+                if name.startswith("f_") and not name.startswith("f___"):
+                    arr = st.heap.get(name, self.H.base.get(name))
+                    f = fresh("hcls_" + name, arr.sort())
+                    st.heap[name] = z3.Lambda([a], z3.If(cond, f[a], arr[a]))
+            return
         if region == "list":
             st.heap["len"] = z3.Store(self.H.len_arr(st), addr, fresh("hlen", I))
             for name in list(st.heap):
